@@ -281,7 +281,7 @@ func c14Backtracking(w *World, r *Report, pa *pipelineAnchors, fa *factoryAnchor
 		case s.Kind == "nonnil" || s.Kind == "nil":
 			if c, isC := x.(*ssa.Const); isC {
 				// a constant is allowed only where the rule has no own setting
-				if !onlyVia(fn, s.At, nilOf(isOwn)) && !viaSelectFalse(w, fn, v, x, isOwn) {
+				if !srcOnlyVia(fn, s, nilOf(isOwn)) && !viaSelectFalse(w, fn, v, x, isOwn) {
 					ok, msg = false, "the flag can be the constant "+c.String()+" although the rule has its own backtracking_enabled setting (own setting ignored when no default rule exists)"
 				}
 				continue
@@ -306,7 +306,7 @@ func c14Backtracking(w *World, r *Report, pa *pipelineAnchors, fa *factoryAnchor
 			}
 			if isDefault {
 				// the default's setting may be used only where the rule has no own setting
-				if !onlyVia(fn, s.At, nilOf(isOwn)) && !viaSelectFalse(w, fn, v, x, isOwn) {
+				if !srcOnlyVia(fn, s, nilOf(isOwn)) && !viaSelectFalse(w, fn, v, x, isOwn) {
 					ok, msg = false, "the default rule's backtracking setting can be used although the rule has its own backtracking_enabled setting (an explicit 'false' cannot switch off an inherited 'true')"
 				}
 				continue
@@ -541,7 +541,7 @@ func c14Ordering(w *World, r *Report, pa *pipelineAnchors, fa *factoryAnchors) {
 			for _, ret := range returnsOf(check) {
 				for _, s := range w.Sources(ret.Results[0], ret.Block()) {
 					if s.Kind == "nil" {
-						if !onlyVia(check, s.At, func(f Fact) bool { l, kd := lenFact(f); return l != nil && kd == "empty" && isFin(l) }) {
+						if !srcOnlyVia(check, s, func(f Fact) bool { l, kd := lenFact(f); return l != nil && kd == "empty" && isFin(l) }) {
 							ok, msg = false, "the order check passes although a finalizer has already been added"
 						}
 					} else {
